@@ -912,6 +912,7 @@ class Interp(Engine):
         application (a definitional axiom instance; deeper unfoldings come from further applications)"""
         if kwargs:
             raise Unsupported("keyword arguments to a recursive spec function")
+        n_pc0 = len(self.p.pc)
         r, key, boxed = self.rec_apply(fv, args)
         done = getattr(self.p, "rec_unfolded", None)
         if done is None:
@@ -936,7 +937,7 @@ class Interp(Engine):
         bt = self.box(body)
         rt = fv.node.returns
         if isinstance(rt, ast.Constant) and isinstance(rt.value, str):
-            self.p.obligations.append((f"{fv.qualname.split(':')[-1]}.declared-range", simp(self.type_cond(bt, rt.value)), ""))
+            self.lemma_obligation(f"{fv.qualname.split(':')[-1]}.declared-range", simp(self.type_cond(bt, rt.value)), n_pc0)
         ens = self.rec_ensures(fv)
         if ens is not None:
             # inductive step: the body satisfies the postcondition, given that the inner applications do
@@ -945,9 +946,23 @@ class Interp(Engine):
                 c = self.truthy(self.call_func(ens, list(self.flat_args(args)) + [body if body.kind in ("int", "bool", "str") else s_val(bt)], {}))
             finally:
                 self._in_ensures = False
-            self.p.obligations.append((f"{fv.qualname.split(':')[-1]}.ensures-inductive", simp(c), ""))
+            self.lemma_obligation(f"{fv.qualname.split(':')[-1]}.ensures-inductive", simp(c), n_pc0)
         self.p.assume(r.rec_term == bt)
         return r
+
+    def lemma_obligation(self, name, cond, n_pc0):
+        """an obligation about a ghost function itself (declared range, inductive postcondition): it does not depend on
+        the path that happens to apply the function, so it is first tried from the facts produced by this unfolding
+        alone (definitions of the merged body, hypotheses on the inner applications) and only then from the whole path
+        condition -- both are sound, the first is far cheaper and is shared between paths"""
+        p = self.p
+        local = list(p.pc[n_pc0:])
+        lp = getattr(p, "lemma_pc", None)
+        if lp is None:
+            lp = p.lemma_pc = {}
+        lp[cond.get_id()] = local
+        self.keepalive.append(cond)
+        p.obligations.append((name, cond, ""))
 
     def val_terms(self, args):
         """terms of the arguments whose tag / class decided on the caller's path specialise a merged call"""
